@@ -56,7 +56,7 @@ def success_only_at_fixed_point(ctx, names=('and_', 'or_', 'not_')):
         wants = [(fx, T.term(ast.parse(fx, mode='eval').body)) for fx in FIXED[name]]
         used = set()
         for r in succ:
-            gs = [(t(g[0]), g[1]) for g in guards_of(r, stop=f.node)]
+            gs = guard_terms(r, stop=f.node)
             e_none = T.mk_cmp('is', ('name', 'e'), ('const', None))
             lits = []
             for tt, tr in gs:
